@@ -1,6 +1,7 @@
 import GoatProofs.Lemmas.C14Ladder
 import Goat.Model.X25519
 import Goat.Gen.X25519
+import Goat.Gen.X448Facts
 /-
 C14 — X448 and X25519 are exactly the RFC 7748 functions.
 
@@ -276,6 +277,28 @@ theorem x25519_delegates (scalar point : Bytes) (o : Oracle) :
     split
     · next out heq => exact absurd heq (h out)
     · rfl
+
+/-! ## the Go functions never write through their arguments
+
+`Model.X448.x448` and `Model.X25519.x25519` are functions of the argument byte VALUES.  The Go functions
+receive slices; the model is faithful for every memory layout of the arguments (same slice twice,
+overlapping windows of one buffer, a slice shared by concurrent callers) only if the Go code never writes
+through them — `X448` copies the scalar first (`var k [56]byte; copy(k[:], scalar)`) and hands `point`
+only to `Element.SetBytes`, which reads it. -/
+
+/-- FACT (regenerated from x448/*.go and x25519/*.go on every run by `translator/x448facts.go`, checked by
+    `decide`): no function of either package contains a statement that can write through a parameter, a
+    receiver or a local alias of one (indexed / sliced / field / dereferenced assignment, `++`/`--`,
+    `copy`/`append`/`clear` into it, `&p[i]`), and the only callees that receive an argument slice of
+    `X448` / `X25519` / `NewKeyFromSeed` are the ones listed (`Element.SetBytes` is covered by the C17
+    translation of `SetBytes`, whose only outputs are the receiver's limbs; `crypto/ecdh` copies its inputs) -/
+theorem x448_args_readonly :
+    (Gen.X448Facts.paramWrites.all fun f => f.2.isEmpty) = true ∧
+    Gen.X448Facts.paramPasses.lookup "x448.X448" = some ["u.SetBytes"] ∧
+    Gen.X448Facts.paramPasses.lookup "x448.NewKeyFromSeed" = some ["X448"] ∧
+    Gen.X448Facts.paramPasses.lookup "x25519.X25519" = some ["c.NewPrivateKey", "c.NewPublicKey"] ∧
+    Gen.X448Facts.paramPasses.lookup "x25519.NewKeyFromSeed" = some ["c.NewPrivateKey"] := by
+  decide
 
 /-! ## non-vacuity -/
 
